@@ -113,6 +113,80 @@ def hostname_netlocs(R):
     return cat(opt(cat(star(NLSAFE()), lit('@'))), h, opt(cat(lit(':'), star(noat))))
 
 
+def _port_digits(values=None):
+    """decimal strings int() maps into 0..65535 (or onto one of `values`), leading zeros allowed"""
+    D = cset([rng('0', '9')])
+    z = star(lit('0'))
+    if values is not None:
+        return alt(*[cat(z, lit(str(v))) if v else plus(lit('0')) for v in values if 0 <= v <= 65535]) if values else EMPTY()
+    r = lambda lo, hi: cset([rng(lo, hi)])  # noqa: E731
+    return alt(cat(z, loop(D, 1, 4)), cat(z, r('1', '5'), loop(D, 4, 4)), cat(z, lit('6'), r('0', '4'), loop(D, 3, 3)),
+               cat(z, lit('65'), r('0', '4'), loop(D, 2, 2)), cat(z, lit('655'), r('0', '2'), D), cat(z, lit('6553'), r('0', '5')))
+
+
+def port_netlocs(kind, values=None):
+    """bracket-free netloc values by SplitResult.port: kind 'none' (no ':' after the last '@', or nothing after it),
+    'valid' (ASCII digits with value <= 65535; `values` restricts to given ints).  Everything else makes .port raise."""
+    noatcolon = Rx('set', rs_minus(NLSAFE().a[0], ((ord('@'), ord('@')), (ord(':'), ord(':')))))
+    user = opt(cat(star(NLSAFE()), lit('@')))
+    if kind == 'none':
+        return cat(user, star(noatcolon), opt(lit(':')))
+    return cat(user, star(noatcolon), lit(':'), _port_digits(values))
+
+
+USES_PARAMS = None
+
+
+def urlsplit_lang(Rs=None, Rn=None, Rp=None, params=False):
+    """{ s : urlsplit(s) does not raise, .scheme in L(Rs), .netloc in L(Rn), .path in L(Rp) }  (None = unconstrained).
+    With params=True the path is urlparse's: for schemes in urllib.parse.uses_params the text from the first ';' of the
+    last path segment on is cut off.  Same urlsplit model as urlsplit_netloc_lang."""
+    if Rs is None and Rp is None:
+        return urlsplit_netloc_lang(ALL() if Rn is None else Rn)
+    import urllib.parse as up
+    Rn_ = ALL() if Rn is None else Rn
+    nl = inter(Rn_, star(NLSAFE()))
+    tailend = alt(EPS(), cat(cset('?#'), ALL()))
+    nq = nset('?#')
+
+    def pathlang(R, after_netloc, with_params):
+        if R is None:
+            base = star(nq)
+        elif with_params:
+            noseg = cat(opt(cat(star(nq), lit('/'))), star(nset('?#/;')))        # last segment without ';'
+            base = cat(inter(R, noseg), opt(cat(lit(';'), star(nset('?#/')))))
+        else:
+            base = inter(R, star(nq))
+        if after_netloc:
+            base = inter(base, alt(EPS(), cat(lit('/'), ALL())))
+        return cat(base, tailend)
+
+    def rest(with_params):
+        r = cat(lit('//'), nl, pathlang(Rp, True, with_params))
+        if _has_eps(Rn_):
+            r = alt(r, inter(compl(cat(lit('//'), ALL())), pathlang(Rp, False, with_params)))
+        return r
+
+    scheme_any = cat(ALPHA, star(SCH))
+    start_ok = alt(EPS(), cat(NOTSTRIP, ALL()))
+    parts = []
+    Rs_ = ALL() if Rs is None else Rs
+    if params and Rp is not None:
+        withp = [x for x in up.uses_params if x]
+        in_uses = alt(*[ci(x) for x in withp])
+        sch_in = inter(map_preimage(Rs_, lower_inverse), scheme_any, in_uses)
+        sch_out = inter(map_preimage(Rs_, lower_inverse), scheme_any, compl(in_uses))
+        parts.append(cat(sch_in, lit(':'), rest(True)))
+        parts.append(cat(sch_out, lit(':'), rest(False)))
+        if _has_eps(Rs_):
+            parts.append(inter(compl(cat(scheme_any, lit(':'), ALL())), rest('' in up.uses_params), start_ok))
+    else:
+        parts.append(cat(inter(map_preimage(Rs_, lower_inverse), scheme_any), lit(':'), rest(False)))
+        if _has_eps(Rs_):
+            parts.append(inter(compl(cat(scheme_any, lit(':'), ALL())), rest(False), start_ok))
+    return cat(star(STRIP), erase_preimage(alt(*parts), T))
+
+
 # ---- WHATWG URL parser: independent state-machine transcription (reference for the regex model) --------
 _FORBIDDEN_HOST = set('\x00\t\n\r #/:<>?@[\\]^|')
 _FORBIDDEN_DOMAIN = _FORBIDDEN_HOST | {chr(c) for c in range(0x20)} | {'%', '\x7f'}
@@ -304,29 +378,181 @@ def nonspecial_host_lang(h):
 
 
 # ---- the real validator, from its AST --------------------------------------------------------------
-class Component:
-    def __init__(self, kind):
-        self.kind = kind
+class SymStr:
+    """a string-valued expression over the parameter: a base (the argument itself or a component of
+    urlsplit/urlparse(argument)) followed by regular transductions; `ops` are pre-image functions (value-language of
+    the result -> value-language of the operand), applied last-to-first"""
+
+    def __init__(self, base, ops=(), parser='urlsplit'):
+        self.base = base            # 'arg' | 'netloc' | 'hostname' | 'scheme' | 'path' | 'port'
+        self.ops = tuple(ops)
+        self.parser = parser
+
+    def then(self, op):
+        return SymStr(self.base, self.ops + (op,), self.parser)
+
+
+_WS = None
+
+
+def _whitespace():
+    global _WS
+    if _WS is None:
+        _WS = strlang.ranges_from_pred(lambda ch: ch.isspace())
+    return Rx('set', tuple(_WS))
+
+
+def _charset_of(chars):
+    return _whitespace() if chars is None else cset(chars)
+
+
+def _not_in(cs):
+    return Rx('set', tuple(strlang.rs_neg(list(cs.a[0]))))
+
+
+def _sep1(c):
+    if not (isinstance(c, str) and len(c) == 1):
+        raise HarnessError(f'only single-character separators are translatable, got {c!r}')
+    return cset(c), nset(c)
+
+
+# pre-images: given R (language of the RESULT), the language of operand values v with op(v) in R
+def pre_charmap(method):
+    inv = None
+
+    def f(R):
+        nonlocal inv
+        if inv is None:
+            from vt.strlang_ext import charmap_inverse
+            inv = charmap_inverse(method)
+        return map_preimage(R, inv)
+    return f
+
+
+def pre_partition(c, idx):
+    C, N = _sep1(c)
+
+    def f(R):
+        if idx == 0:        # text before the first c (whole string if none)
+            return cat(inter(R, star(N)), opt(cat(C, ALL())))
+        if idx == 2:        # text after the first c ('' if none)
+            r = cat(star(N), C, R)
+            return alt(r, star(N)) if _has_eps(R) else r
+        if idx == 1:        # the separator itself ('' if none)
+            parts = []
+            if _has_eps(R):
+                parts.append(star(N))
+            from vt.strlang_ext import in_lang, to_z3
+            if in_lang(to_z3(R), c):
+                parts.append(cat(star(N), C, ALL()))
+            return alt(*parts) if parts else EMPTY()
+        raise HarnessError('partition index must be 0, 1 or 2')
+    return f
+
+
+def pre_rpartition(c, idx):
+    C, N = _sep1(c)
+
+    def f(R):
+        if idx == 2:        # text after the last c (whole string if none)
+            return cat(opt(cat(ALL(), C)), inter(R, star(N)))
+        if idx == 0:        # text before the last c ('' if none)
+            r = cat(R, C, star(N))
+            return alt(r, star(N)) if _has_eps(R) else r
+        raise HarnessError('rpartition index must be 0 or 2')
+    return f
+
+
+def pre_split(c, maxsplit, idx, right):
+    C, N = _sep1(c)
+
+    def f(R):
+        seg = inter(R, star(N))
+        if not right:
+            if idx == 0:
+                return cat(seg, opt(cat(C, ALL())))
+            if maxsplit == 1 and idx in (-1, 1):
+                r = cat(star(N), C, R)
+                return alt(r, seg) if idx == -1 else r          # [1] raises IndexError without a separator
+            if maxsplit is None and idx == -1:
+                return cat(opt(cat(ALL(), C)), seg)
+            if maxsplit is None and idx == 1:
+                return cat(star(N), C, seg, opt(cat(C, ALL())))
+        else:
+            if idx == -1:
+                return cat(opt(cat(ALL(), C)), seg)
+            if maxsplit == 1 and idx == 0:
+                return alt(cat(R, C, star(N)), seg)
+            if maxsplit is None and idx == 0:
+                return cat(seg, opt(cat(C, ALL())))
+        raise HarnessError(f'split form not translatable: maxsplit={maxsplit} index={idx} right={right}')
+    return f
+
+
+def pre_strip(chars, left, right):
+    cs = _charset_of(chars)
+    nc = _not_in(cs)
+
+    def f(R):
+        core = R
+        if left:
+            core = inter(core, alt(EPS(), cat(nc, ALL())))
+        if right:
+            core = inter(core, alt(EPS(), cat(ALL(), nc)))
+        return cat(star(cs) if left else EPS(), core, star(cs) if right else EPS())
+    return f
+
+
+def pre_removeprefix(p):
+    def f(R):
+        return alt(cat(lit(p), R), inter(R, compl(cat(lit(p), ALL())))) if p else R
+    return f
+
+
+def pre_removesuffix(p):
+    def f(R):
+        return alt(cat(R, lit(p)), inter(R, compl(cat(ALL(), lit(p))))) if p else R
+    return f
+
+
+def pre_slice(lo, hi):
+    any1 = Rx('set', ((0, strlang.PYMAX),))
+
+    def f(R):
+        if hi is None and lo is not None and lo >= 0:         # v[lo:]
+            r = cat(loop(any1, lo, lo), R)
+            return alt(r, loop(any1, 0, lo - 1)) if _has_eps(R) and lo > 0 else r
+        if lo in (None, 0) and hi is not None and hi >= 0:    # v[:hi]
+            return alt(inter(R, loop(any1, 0, hi - 1)) if hi > 0 else EMPTY(), cat(inter(R, loop(any1, hi, hi)), ALL()))
+        raise HarnessError('only v[k:] and v[:k] with constant k >= 0 are translatable')
+    return f
 
 
 class ValidatorTranslator:
-    """`validate_next_page_url(x)`-shaped functions: a sequence of `if TEST: raise`, assignments of
-    expressions that do not mention the parameter (evaluated concretely in the real module namespace with
-    the deployment under test), and assignments `v = urlparse(x).netloc|hostname` (symbolic component).
-    Negations are pushed down to the atoms; an atom over a component becomes `urlsplit_netloc_lang(R)`
-    for a regex R over netloc values (every string on which urlsplit does not raise has exactly one netloc)."""
+    """`validate_next_page_url(x)`-shaped functions: a sequence of `if TEST: raise` and assignments.  Expressions that do
+    not mention the parameter are evaluated concretely in the real module namespace with the deployment under test.
+    String expressions over the parameter are kept symbolic: the parameter, `.netloc/.hostname/.scheme/.path/.port` of
+    urlsplit/urlparse(parameter) (also through a variable holding the parse result), followed by regular transductions
+    (.lower/.upper/.casefold, .partition/.rpartition/.split/.rsplit with a constant index, .strip/.lstrip/.rstrip,
+    .removeprefix/.removesuffix, constant slices), bound to intermediate variables or not.  An atom `expr in R` becomes the
+    pre-image of R under the transductions, lifted through the exact urlsplit model; negations are pushed to the atoms."""
+
+    COMPONENTS = ('netloc', 'hostname', 'scheme', 'path', 'port')
 
     def __init__(self, fn, env):
         self.fn = fn
         self.arg = fn.args.args[0].arg
         self.env = dict(env)
         self.loc = {}
-        self.sym = {}
+        self.sym = {}           # name -> SymStr
+        self.parsed = {}        # name -> 'urlparse' | 'urlsplit'   (variables holding the parse result)
         self.concrete = {}      # name -> concretely evaluated value (reported)
         self._lifted = []
+        self.uses_parser = False
 
     def mentions_arg(self, node):
-        return any(isinstance(n, ast.Name) and (n.id == self.arg or n.id in self.sym) for n in ast.walk(node))
+        return any(isinstance(n, ast.Name) and (n.id == self.arg or n.id in self.sym or n.id in self.parsed)
+                   for n in ast.walk(node))
 
     def concrete_eval(self, node):
         try:
@@ -334,19 +560,112 @@ class ValidatorTranslator:
         except Exception as e:  # noqa: BLE001
             raise HarnessError(f'cannot evaluate {ast.unparse(node)} concretely: {e}')
 
-    def component(self, node):
-        if isinstance(node, ast.Attribute) and node.attr in ('netloc', 'hostname') and isinstance(node.value, ast.Call) \
-                and isinstance(node.value.func, ast.Name) and node.value.func.id in ('urlparse', 'urlsplit') \
-                and len(node.value.args) == 1 and not node.value.keywords \
-                and isinstance(node.value.args[0], ast.Name) and node.value.args[0].id == self.arg:
-            return Component(node.attr)
-        if isinstance(node, ast.Name) and node.id in self.sym:
-            return self.sym[node.id]
+    def const(self, node):
+        if self.mentions_arg(node):
+            raise HarnessError(f'argument of a string method must not depend on the parameter: {ast.unparse(node)}')
+        return self.concrete_eval(node)
+
+    def parse_call(self, node):
+        if isinstance(node, ast.Call) and isinstance(node.func, ast.Name) and node.func.id in ('urlparse', 'urlsplit') \
+                and len(node.args) == 1 and not node.keywords and isinstance(node.args[0], ast.Name) \
+                and node.args[0].id == self.arg:
+            return node.func.id
+        if isinstance(node, ast.Name) and node.id in self.parsed:
+            return self.parsed[node.id]
         return None
 
-    def lift(self, comp, R, neg):
-        nl = R if comp.kind == 'netloc' else hostname_netlocs(R)
-        out = urlsplit_netloc_lang(compl(nl) if neg else nl)
+    def symstr(self, node):
+        """SymStr for a string expression over the parameter, or None"""
+        if isinstance(node, ast.Name):
+            if node.id == self.arg:
+                return SymStr('arg')
+            return self.sym.get(node.id)
+        if isinstance(node, ast.Attribute) and node.attr in self.COMPONENTS:
+            pc = self.parse_call(node.value)
+            if pc is not None:
+                self.uses_parser = True
+                return SymStr(node.attr, (), pc)
+        if isinstance(node, ast.Call) and isinstance(node.func, ast.Attribute):
+            base = self.symstr(node.func.value)
+            if base is None or base.base == 'port':
+                return None
+            m = node.func.attr
+            args = [self.const(a) for a in node.args]
+            if node.keywords:
+                raise HarnessError(f'keyword arguments not translatable: {ast.unparse(node)}')
+            if m in ('lower', 'upper', 'casefold') and not args:
+                return base.then(pre_charmap(m))
+            if m in ('strip', 'lstrip', 'rstrip') and len(args) <= 1:
+                return base.then(pre_strip(args[0] if args else None, m != 'rstrip', m != 'lstrip'))
+            if m == 'removeprefix' and len(args) == 1:
+                return base.then(pre_removeprefix(args[0]))
+            if m == 'removesuffix' and len(args) == 1:
+                return base.then(pre_removesuffix(args[0]))
+            return None
+        if isinstance(node, ast.Subscript):
+            v = node.value
+            if isinstance(node.slice, ast.Slice):
+                base = self.symstr(v)
+                if base is None:
+                    return None
+                if node.slice.step is not None:
+                    raise HarnessError('slice steps are not translatable')
+                lo = self.const(node.slice.lower) if node.slice.lower is not None else None
+                hi = self.const(node.slice.upper) if node.slice.upper is not None else None
+                return base.then(pre_slice(lo, hi))
+            if isinstance(v, ast.Call) and isinstance(v.func, ast.Attribute) and v.func.attr in (
+                    'partition', 'rpartition', 'split', 'rsplit'):
+                base = self.symstr(v.func.value)
+                if base is None:
+                    return None
+                idx = self.const(node.slice)
+                args = [self.const(a) for a in v.args]
+                m = v.func.attr
+                if not isinstance(idx, int) or v.keywords or not args:
+                    raise HarnessError(f'not translatable: {ast.unparse(node)}')
+                if m == 'partition' and len(args) == 1:
+                    return base.then(pre_partition(args[0], idx % 3))
+                if m == 'rpartition' and len(args) == 1:
+                    return base.then(pre_rpartition(args[0], idx % 3))
+                if m in ('split', 'rsplit') and len(args) <= 2:
+                    return base.then(pre_split(args[0], args[1] if len(args) == 2 else None, idx, m == 'rsplit'))
+        return None
+
+    def lift(self, sym, R, neg):
+        """language of inputs whose expression value is in L(R) (not in L(R) if neg); str methods never raise, a method
+        call on a None hostname does (AttributeError -> the request fails, the input is not accepted)"""
+        if sym.base == 'port':
+            raise HarnessError('port is only translatable in `is None`, `==` and `in` tests')
+        if sym.ops:
+            Rv = compl(R) if neg else R
+            for op in reversed(sym.ops):
+                Rv = op(Rv)
+            neg = False
+        else:
+            Rv = R
+        if sym.base == 'arg':
+            return compl(Rv) if neg else Rv
+        params = sym.parser == 'urlparse'
+        if sym.base == 'netloc':
+            out = urlsplit_lang(None, compl(Rv) if neg else Rv, None)
+        elif sym.base == 'hostname':
+            nl = hostname_netlocs(Rv)
+            out = urlsplit_lang(None, compl(nl) if neg else nl, None)
+        elif sym.base == 'scheme':
+            out = urlsplit_lang(compl(Rv) if neg else Rv, None, None)
+        else:
+            out = urlsplit_lang(None, None, compl(Rv) if neg else Rv, params=params)
+        self._lifted.append(out)
+        return out
+
+    def lift_port(self, kind, values, neg):
+        if kind == 'none':
+            nl = port_netlocs('valid') if neg else port_netlocs('none')
+        elif neg:
+            nl = alt(port_netlocs('none'), inter(port_netlocs('valid'), compl(port_netlocs('valid', values))))
+        else:
+            nl = port_netlocs('valid', values)
+        out = urlsplit_lang(None, nl, None)
         self._lifted.append(out)
         return out
 
@@ -358,39 +677,65 @@ class ValidatorTranslator:
         raise HarnessError(f'expected str or collection of str, got {v!r}')
 
     def truthy(self, e, neg=False):
-        """language of inputs (among those on which no urlparse call raises) making e truthy (falsy if neg)"""
+        """language of inputs making e truthy (falsy if neg), among those on which nothing raises"""
         if isinstance(e, ast.UnaryOp) and isinstance(e.op, ast.Not):
             return self.truthy(e.operand, not neg)
         if isinstance(e, ast.BoolOp):
             parts = [self.truthy(v, neg) for v in e.values]
             return alt(*parts) if isinstance(e.op, ast.Or) != neg else inter(*parts)
-        if isinstance(e, ast.Name) and e.id == self.arg:
-            return EPS() if neg else cat(Rx('set', ((0, strlang.PYMAX),)), ALL())
         if not self.mentions_arg(e):
             return ALL() if bool(self.concrete_eval(e)) != neg else EMPTY()
+        nonempty = cat(Rx('set', ((0, strlang.PYMAX),)), ALL())
+        s = self.symstr(e)
+        if s is not None:
+            if s.base == 'port':
+                raise HarnessError('truthiness of .port is not translatable')
+            if s.base == 'hostname' and not s.ops:       # None or a non-empty string
+                return self.lift(s, ALL(), neg)
+            return self.lift(s, nonempty, neg)
         if isinstance(e, ast.Compare) and len(e.ops) == 1:
             l, op, r = e.left, e.ops[0], e.comparators[0]
-            cl, cr = self.component(l), self.component(r)
-            if cl is not None and not self.mentions_arg(r):
+            sl, sr = self.symstr(l), self.symstr(r)
+            if sl is not None and not self.mentions_arg(r):
                 val = self.concrete_eval(r)
+                if sl.base == 'port':
+                    if isinstance(op, (ast.Is, ast.IsNot, ast.Eq, ast.NotEq)) and val is None:
+                        return self.lift_port('none', None, isinstance(op, (ast.IsNot, ast.NotEq)) != neg)
+                    if isinstance(op, (ast.Eq, ast.NotEq)) and isinstance(val, int):
+                        return self.lift_port('valid', [val], isinstance(op, ast.NotEq) != neg)
+                    if isinstance(op, (ast.In, ast.NotIn)) and all(isinstance(x, int) or x is None for x in val):
+                        ints = [x for x in val if x is not None]
+                        pos = alt(port_netlocs('valid', ints), *([port_netlocs('none')] if None in val else []))
+                        out = urlsplit_lang(None, pos, None)
+                        if isinstance(op, ast.NotIn) != neg:
+                            out = inter(urlsplit_lang(None, alt(port_netlocs('none'), port_netlocs('valid')), None), compl(out))
+                        self._lifted.append(out)
+                        return out
+                    raise HarnessError(f'port test not translatable: {ast.unparse(e)}')
+                if isinstance(op, (ast.Is, ast.IsNot)) and val is None and sl.base == 'hostname' and not sl.ops:
+                    return self.lift(sl, ALL(), isinstance(op, ast.Is) != neg)
                 if isinstance(op, (ast.In, ast.NotIn)):
                     if isinstance(val, str):
                         subs = {val[i:j] for i in range(len(val) + 1) for j in range(i, len(val) + 1)}
-                        R = alt(*[lit(s) for s in sorted(subs)])
+                        R = alt(*[lit(x) for x in sorted(subs)])
                     else:
-                        R = alt(*[lit(s) for s in self.strs(val)]) if val else EMPTY()
-                    return self.lift(cl, R, isinstance(op, ast.NotIn) != neg)
+                        R = alt(*[lit(x) for x in self.strs(val)]) if val else EMPTY()
+                    return self.lift(sl, R, isinstance(op, ast.NotIn) != neg)
                 if isinstance(op, (ast.Eq, ast.NotEq)) and isinstance(val, str):
-                    return self.lift(cl, lit(val), isinstance(op, ast.NotEq) != neg)
-            if cr is not None and not self.mentions_arg(l) and isinstance(op, (ast.In, ast.NotIn)):
+                    return self.lift(sl, lit(val), isinstance(op, ast.NotEq) != neg)
+            if sr is not None and not self.mentions_arg(l) and isinstance(op, (ast.In, ast.NotIn)):
                 val = self.concrete_eval(l)
                 if isinstance(val, str):
-                    return self.lift(cr, cat(ALL(), lit(val), ALL()), isinstance(op, ast.NotIn) != neg)
+                    return self.lift(sr, cat(ALL(), lit(val), ALL()), isinstance(op, ast.NotIn) != neg)
+            if sr is not None and not self.mentions_arg(l) and isinstance(op, (ast.Eq, ast.NotEq)):
+                val = self.concrete_eval(l)
+                if isinstance(val, str):
+                    return self.lift(sr, lit(val), isinstance(op, ast.NotEq) != neg)
         if isinstance(e, ast.Call):
             f = e.func
             if isinstance(f, ast.Attribute) and f.attr in ('endswith', 'startswith') and len(e.args) == 1 \
                     and not self.mentions_arg(e.args[0]):
-                c = self.component(f.value)
+                c = self.symstr(f.value)
                 if c is not None:
                     vals = self.strs(self.concrete_eval(e.args[0]))
                     if f.attr == 'endswith':
@@ -417,19 +762,25 @@ class ValidatorTranslator:
     def accepted(self):
         """language of strings for which the function returns without raising"""
         conj = []
-        parsed = False
         for st in self.fn.body:
             if isinstance(st, ast.Expr) and isinstance(st.value, ast.Constant):
                 continue
             if isinstance(st, ast.Assign) and len(st.targets) == 1 and isinstance(st.targets[0], ast.Name):
                 name = st.targets[0].id
-                comp = self.component(st.value)
-                if comp is not None:
-                    self.sym[name] = comp
-                    parsed = True
+                pc = self.parse_call(st.value) if isinstance(st.value, ast.Call) else None
+                if pc is not None:
+                    self.parsed[name] = pc
+                    self.uses_parser = True
                     continue
                 if self.mentions_arg(st.value):
-                    raise HarnessError(f'assignment not in the translatable subset: {ast.unparse(st)}')
+                    sym = self.symstr(st.value)
+                    if sym is None:
+                        raise HarnessError(f'assignment not in the translatable subset: {ast.unparse(st)}')
+                    self.sym[name] = sym
+                    if sym.base == 'hostname' and sym.ops:
+                        # a str method on a None hostname raises: only inputs with a hostname survive this statement
+                        conj.append(self.lift(SymStr('hostname', (), sym.parser), ALL(), False))
+                    continue
                 self.loc[name] = self.concrete_eval(st.value)
                 self.concrete[name] = self.loc[name]
                 continue
@@ -438,7 +789,7 @@ class ValidatorTranslator:
                 continue
             raise HarnessError(f'statement not in the translatable subset: {ast.unparse(st)}')
         conj = [c for c in conj if c.op != 'all']
-        if parsed and not any(c is l for c in conj for l in self._lifted):
+        if self.uses_parser and not any(c is l for c in conj for l in self._lifted):
             # the urlparse call itself may raise ValueError: such inputs leave the accepted set
             conj.append(urlsplit_netloc_lang(ALL()))
         if not conj:
